@@ -71,6 +71,7 @@ type FuncContract struct {
 	Depth    int
 	Pkg      string
 	File     string
+	Trusted  string
 	Assume   []*Clause // assumed at entry without being checked at call sites (type invariants)
 }
 
@@ -530,6 +531,14 @@ func (db *ContractDB) loadContractFile(path, pkg string) error {
 		case "fresh":
 			if curF != nil {
 				curF.Fresh = true
+			}
+		case "trusted":
+			// a contract on a repository function that is assumed, not verified (listed in the trusted base)
+			if curF != nil {
+				curF.Trusted = rest
+				if rest == "" {
+					curF.Trusted = "assumed"
+				}
 			}
 		case "modifies":
 			if curF != nil {
